@@ -469,7 +469,77 @@ fn parser_driven(rng: &mut Rng, st: &mut Stats) {
     st.count("parser_driven_histories");
 }
 
+/// A lead surrogate at the end of a heap tendril joined with a trail surrogate at the start of the pushed bytes turns
+/// 3 + 3 bytes into 4: the length arithmetic of that fix-up right next to the capacity. Every receiver length 9..=140 x
+/// tail length 0..=4 x three ways of building the receiver, so every relation between the resulting length and the
+/// buffer's capacity occurs whatever the growth policy is; then 40 more bytes to force a reallocation, content compared
+/// after each step, allocator monitor consulted after each case.
+fn wtf8_join_sweep<A: Atomicity>(st: &mut Stats, audit: bool) -> Result<usize, String> {
+    let base = valloc::snapshot();
+    let mut cases = 0usize;
+    for lhs_len in 9..=140usize {
+        for tail in 0..=4usize {
+            for how in 0..3 {
+                let mut l = vec![b'a'; lhs_len - 3];
+                l.extend(super::tendril_ops::enc_cp(0xD83D));
+                let mut r = super::tendril_ops::enc_cp(0xDE00);
+                r.extend(std::iter::repeat(b'b').take(tail));
+                let mut t: Tendril<WTF8, A> = match how {
+                    0 => attributed(|| Tendril::try_from_byte_slice(&l)).map_err(|_| "construct failed".to_string())?,
+                    1 => {
+                        let mut t = attributed(|| Tendril::<WTF8, A>::with_capacity(lhs_len as u32));
+                        attributed(|| t.try_push_bytes(&l)).map_err(|_| "push failed".to_string())?;
+                        t
+                    },
+                    _ => {
+                        let t: Tendril<WTF8, A> = attributed(|| Tendril::try_from_byte_slice(&l)).map_err(|_| "construct failed".to_string())?;
+                        let c = attributed(|| t.clone());
+                        attributed(|| drop(c));
+                        t
+                    },
+                };
+                let mut model = l.clone();
+                attributed(|| t.try_push_bytes(&r)).map_err(|_| "push failed".to_string())?;
+                <WTF8 as Fm>::append(&mut model, &r);
+                if bytes_of(&t) != &model[..] {
+                    return Err(format!("wtf8 join sweep (receiver {lhs_len} bytes ending in a lead surrogate, built by way {how}, pushed trail surrogate + {tail} bytes): content differs from model after the push"));
+                }
+                let more = [b'c'; 40];
+                attributed(|| t.try_push_bytes(&more)).map_err(|_| "push failed".to_string())?;
+                model.extend_from_slice(&more);
+                if bytes_of(&t) != &model[..] {
+                    return Err(format!("wtf8 join sweep (receiver {lhs_len} bytes ending in a lead surrogate, built by way {how}, pushed trail surrogate + {tail} bytes): content changed across the following reallocation"));
+                }
+                attributed(|| drop(t));
+                if audit {
+                    if let Some(v) = valloc::take_violation() {
+                        return Err(format!("wtf8 join sweep (receiver {lhs_len} bytes, way {how}, tail {tail}): allocator monitor: {v}"));
+                    }
+                }
+                cases += 1;
+            }
+        }
+    }
+    if audit {
+        let snap = valloc::snapshot();
+        if snap.live != base.live {
+            return Err(format!("wtf8 join sweep: {} tendril heap buffers still allocated after every tendril was dropped", snap.live - base.live));
+        }
+        if let Err(e) = valloc::reset() {
+            return Err(format!("wtf8 join sweep: at arena reset: {e}"));
+        }
+    }
+    st.add("wtf8_surrogate_join_cases_next_to_capacity", cases as u64);
+    Ok(cases)
+}
+
 fn one_history(family: usize, hseed: u64, nops: usize, st: &mut Stats, audit: bool) -> Result<usize, String> {
+    if family == 8 {
+        return match catch(|| if hseed % 2 == 0 { wtf8_join_sweep::<NonAtomic>(st, audit) } else { wtf8_join_sweep::<Atomic>(st, audit) }) {
+            Ok(r) => r,
+            Err(m) => Err(format!("panic: {m}")),
+        };
+    }
     let mut rng = Rng::new(hseed);
     match catch(|| match family % 8 {
         6 => audited_bytes_history::<NonAtomic>(&mut rng, nops, st, audit),
@@ -587,7 +657,10 @@ pub fn run(args: &Args) -> (Meta, Stats) {
             break;
         }
         let hseed = mix(seed ^ 0xC12, k);
-        let family = (k % 8) as usize;
+        // the first two histories of a run are the surrogate-join sweep (non-atomic, atomic); in sanitizer processes only
+        // one process in four runs it (it is 4000 small cases)
+        let family = if k < 2 && (!sanit || seed % 4 == 0) { 8 } else { (k % 8) as usize };
+        let hseed = if family == 8 { k } else { hseed };
         let nops = if sanit { 60 } else { 50 + (hseed % 300) as usize };
         k += 1;
         st.case(Some(hseed));
